@@ -48,7 +48,7 @@ def run(tier, replay):
             "states": gen.distinct, "transitions": gen.generated, "traces_validated_against_impl": tv.done[0],
             "abstract_mutations": len(gen.cases), "calls_per_entry_point": per_ep,
             "samples": [{"entry_point": h["ep"], "mutation": h["how"], "input_head": h["head"], "outcome": h["outcome"]} for h in head],
-            "rule": "Gen_Totality over Totality.tla: 40 entry points x %d valid seed documents x {identity, truncation at EVERY position, 6 byte classes flipped at EVERY position, "
+            "rule": "Gen_Totality over Totality.tla: 49 entry points x %d valid seed documents x {identity, truncation at EVERY position, 6 byte classes flipped at EVERY position, "
                     "24 byte classes flipped / inserted at 13 relative positions, deletion, duplicated tail, nesting / long line / repeated delimiter x {10, 1000, 20000}, line-ending variants, the seed or its head repeated 1000x, every number replaced by 32 boundary values} + seeded random "
                     "ASCII and binary strings; every call on its own 2 MiB-stack thread with a 30 s watchdog inside a child process; Trace_Totality accepts only value / error outcomes "
                     "(distinct = every generated document is a different byte string per entry point)" % (2 if tier == "quick" else 4),
